@@ -57,4 +57,11 @@ inline uint32_t CachedLength(uint32_t height) {
 inline uint32_t RowsThatFit(uint32_t totalBytes, uint32_t rowBytesFromFile) {
 	return totalBytes / rowBytesFromFile;
 }
+
+// R-NOEXCEPT: a noexcept accessor that still calls a refusing verifier (the refusal becomes std::terminate)
+struct Nodes {
+	unsigned count;
+	void VerifyInBounds(unsigned i) const { if (i >= count) throw std::runtime_error("out of range"); }
+	bool IsLast(unsigned i) const noexcept { VerifyInBounds(i); return i + 1 == count; }
+};
 }
